@@ -177,7 +177,20 @@ func flagClass(f BalFlags) string {
 }
 
 func runC02(c *Ctx) {
-	runC02Text(c)
+	// C02_STREAMS=a,b restricts a run to some streams (development aid)
+	on := func(s string) bool {
+		only := os.Getenv("C02_STREAMS")
+		return c.Replay || only == "" || strings.Contains(","+only+",", ","+s+",")
+	}
+	if on("baltext") {
+		runC02Text(c)
+	}
+	if on("shared") {
+		runC02Shared(c)
+	}
+	if !on("balance") {
+		return
+	}
 	n := c.N(5000, 40000)
 	cases := genBalCases(c, "balance", n, func(r *RNG) JGenOpts {
 		return JGenOpts{MaxAccounts: r.Range(2, 8), MaxDays: r.Range(1, 8), Unicode: true, BaseDay: 737000 + r.Intn(1500), SpanDays: Pick(r, []int{0, 5, 40, 100, 400, 800}), BoundaryDates: r.Chance(1, 8),
@@ -388,7 +401,9 @@ func c02Fault(r *RNG, d JDir, syntaxLevel bool) (string, string) {
 			add("syntax:quote-missing", func() { lines[hdr] = lines[hdr][:11] + lines[hdr][12:] })
 			add("syntax:booking-comma", func() { l := len(lines) - 1; lines[l] = strings.Replace(lines[l], " ", ", ", 1) })
 		} else {
-			add("syntax:keyword", func() { setTok(0, 1, func(s string) string { return Pick(r, []string{"opn", "Open", "closed", "prize", "balanse", "bal"}) }) })
+			add("syntax:keyword", func() {
+				setTok(0, 1, func(s string) string { return Pick(r, []string{"opn", "Open", "closed", "prize", "balanse", "bal"}) })
+			})
 		}
 	} else {
 		add("date", func() { lines[hdr] = c02BadDate(r, lines[hdr][:10]) + lines[hdr][10:] })
@@ -692,5 +707,369 @@ func runC02Text(c *Ctx) {
 			}
 			c.Monitor(stream, tc.Idx, "accepted_report_has_all_bookings", in, ok, d)
 		}, "balance-spec", tc.F.Wire(today()), tc.J.Wire())
+	}
+}
+
+// ---------------------------------------------------------------- stream shared: sibling files that introduce the same new names together
+//
+// The loader converts every file of an include tree in a worker of its own (model.FromStream); all workers resolve commodity
+// and account names through ONE pair of registries, and everything downstream (amounts.Key, the closing accumulators, the
+// report's rows and columns) is keyed by the OBJECTS the registries handed out.  The cells of the report equal the ledger sums
+// only if all files were given the same object for the same name.  The streams above hold a handful of commodities in a
+// handful of files and run every journal once; here a root file includes 3-10 sibling files which all book on the same 50-400
+// commodities (and the same accounts) that no file has mentioned before, from their first directives on, and the same tree is
+// loaded 6-12 times (the natural schedule; GOMAXPROCS 2 / 16 / unset) next to one load of the concatenated single file.
+// (Seeded change C02-j replaced the registry's map + RWMutex by a sync.Map with Load / validate / Store: two workers that miss
+// together both create the commodity, and the report shows the name in two rows per account, each with one file's bookings.)
+//   compare  balance               the first load of the tree against the pipeline model on the union of the files' directives (every fourth case; thorough: all)
+//   monitor  report_equals_ledger  EVERY load (tree and single file) against the rendering of Spec.ledgerEntries on the union
+// Varied around it: number of files / commodities / accounts, commodity names (K<k>, words, non-ASCII letters, 20-60 runes,
+// case variants), the order in which a file goes through the commodities (same everywhere, rotated, reversed, shuffled), files
+// that leave some commodities out, one or several bookings per transaction, one day / a day per file / days spread over a year,
+// the opens in the root file before or after the include lines or at the top of the sibling files, siblings in a sub-directory
+// or included through a chain, and the whole flag space of `knut balance` (text and CSV).
+
+type c02SharedRun struct {
+	What   string // "single file" | "include tree"
+	Procs  int    // GOMAXPROCS (0 = unset)
+	Code   int
+	Stdout string
+	Stderr string
+}
+
+type c02SharedCase struct {
+	Idx                  int
+	J                    *Journal // the union of all files' directives
+	F                    BalFlags
+	Files                []c02File // Files[0] is the root
+	Flat                 string
+	NFiles, NComs, NAccs int
+	Names, Order, Layout string
+	Runs                 []c02SharedRun
+}
+
+func (sc *c02SharedCase) Input(run *c02SharedRun) map[string]any {
+	files := make([]map[string]string, len(sc.Files))
+	for i, f := range sc.Files {
+		files[i] = map[string]string{"path": f.Path, "text": f.Text}
+	}
+	in := map[string]any{"files": files, "args": strings.Join(sc.F.Args(), " ") + " main.knut", "sibling_files": sc.NFiles, "new_commodities": sc.NComs, "accounts": sc.NAccs,
+		"names": sc.Names, "order": sc.Order, "layout": sc.Layout, "wire_flags": sc.F.Wire(today()),
+		"note": "the outcome depends on the schedule of the loader's per-file workers: load the tree repeatedly"}
+	if run != nil {
+		in["load"] = run.What
+		if run.Procs > 0 {
+			in["GOMAXPROCS"] = run.Procs
+		}
+	}
+	return in
+}
+
+func c02SharedOutcome(ru *c02SharedRun) string {
+	bc := balCase{Code: ru.Code, Stdout: ru.Stdout, Stderr: ru.Stderr}
+	return bc.implOutcome()
+}
+
+func c02GenSharedCase(r *RNG, i int) *c02SharedCase {
+	sc := &c02SharedCase{Idx: i, NFiles: r.Range(3, 10), NComs: r.Range(50, 400), NAccs: r.Range(2, 12)}
+	base := 737000 + r.Intn(1500)
+	// commodity names, all different
+	style := r.Intn(5)
+	sc.Names = []string{"K<k>", "words", "words with non-ASCII letters", "20-60 runes", "words and their case variants"}[style]
+	seen := map[string]bool{}
+	var coms []string
+	for len(coms) < sc.NComs {
+		var w string
+		switch style {
+		case 0:
+			w = fmt.Sprintf("K%d", len(coms))
+		case 1:
+			w = jgWord(r, r.Range(1, 8), 0, true)
+		case 2:
+			w = jgWord(r, r.Range(1, 8), 1, true)
+		case 3:
+			w = jgWord(r, r.Range(20, 60), r.Intn(2), true)
+		default:
+			w = jgWord(r, r.Range(2, 6), 0, true)
+			if len(coms) > 0 && r.Chance(1, 3) {
+				p := coms[r.Intn(len(coms))]
+				w = Pick(r, []string{strings.ToLower(p), strings.ToUpper(p)})
+			}
+		}
+		if !seen[w] {
+			seen[w] = true
+			coms = append(coms, w)
+		}
+	}
+	// accounts: an A/L account, an equity account, and others
+	segs := []string{"Bank", "Cash", "Broker", "Main", "Sub", "X", "Y", "Z9", "Salary", "Rent", "Food", "Car", "A", "B", "Épargne", "日本"}
+	accounts := []string{"Assets:" + Pick(r, segs), "Equity:" + Pick(r, []string{"Equity", "Opening", "E"})}
+	aseen := map[string]bool{accounts[0]: true, accounts[1]: true}
+	for len(accounts) < sc.NAccs {
+		a := Pick(r, typeNames)
+		for k := r.Range(1, 3); k > 0; k-- {
+			a += ":" + Pick(r, segs)
+		}
+		if r.Chance(1, 4) {
+			a = Pick(r, accounts) + ":" + Pick(r, segs)
+		}
+		if !aseen[a] {
+			aseen[a] = true
+			accounts = append(accounts, a)
+		}
+	}
+	amount := func() string {
+		switch r.Intn(6) {
+		case 0:
+			return fmt.Sprintf("-%d.%02d", r.Intn(500), r.Intn(100))
+		case 1:
+			return fmt.Sprintf("%d", r.Range(1, 5000))
+		case 2:
+			return fmt.Sprintf("%d.5", r.Intn(100))
+		default:
+			return fmt.Sprintf("%d.%02d", r.Intn(2000), r.Intn(100))
+		}
+	}
+	// the directives of every file: fileDirs[0] is the root, fileDirs[1+f] sibling f
+	fileDirs := make([][]JDir, sc.NFiles+1)
+	openAt := Pick(r, []int{0, 0, 1, 2}) // 0: root, before the includes; 1: root, after the includes; 2: at the top of the sibling files
+	for k, a := range accounts {
+		f := 0
+		if openAt == 2 {
+			f = 1 + k%sc.NFiles
+		}
+		fileDirs[f] = append(fileDirs[f], JDir{Kind: 'o', Date: base, Account: a})
+	}
+	dayMode := r.Intn(3)
+	span := Pick(r, []int{5, 30, 100, 365})
+	orderMode := Pick(r, []int{0, 0, 0, 1, 2, 3})
+	sc.Order = []string{"every file goes through the commodities in the same order", "file f starts f/files into the list", "every second file goes backwards", "shuffled per file"}[orderMode]
+	sc.Order += "; " + []string{"all bookings on one day", "one day per file", fmt.Sprintf("days spread over %d days", span)}[dayMode]
+	leaveOut := r.Chance(1, 4)
+	maxBook := Pick(r, []int{1, 1, 2, 4})
+	for f := 0; f < sc.NFiles; f++ {
+		order := make([]int, sc.NComs)
+		for k := range order {
+			switch orderMode {
+			case 1:
+				order[k] = (k + f*sc.NComs/sc.NFiles) % sc.NComs
+			case 2:
+				if f%2 == 1 {
+					order[k] = sc.NComs - 1 - k
+				} else {
+					order[k] = k
+				}
+			default:
+				order[k] = k
+			}
+		}
+		if orderMode == 3 {
+			for k := len(order) - 1; k > 0; k-- {
+				q := r.Intn(k + 1)
+				order[k], order[q] = order[q], order[k]
+			}
+		}
+		var t *JDir
+		for _, k := range order {
+			if leaveOut && r.Chance(1, 5) {
+				continue
+			}
+			if t == nil || len(t.Bookings) >= maxBook || r.Bool() {
+				if t != nil {
+					fileDirs[1+f] = append(fileDirs[1+f], *t)
+				}
+				day := base + 1
+				switch dayMode {
+				case 1:
+					day += f
+				case 2:
+					day += r.Intn(span)
+				}
+				t = &JDir{Kind: 't', Date: day, Desc: Pick(r, []string{"t", "shared", fmt.Sprintf("file %d", f)})}
+			}
+			cr := Pick(r, accounts)
+			dr := Pick(r, accounts)
+			if cr == dr {
+				dr = accounts[(indexOf(accounts, cr)+1)%len(accounts)]
+			}
+			t.Bookings = append(t.Bookings, JBook{cr, dr, amount(), coms[k]})
+		}
+		if t != nil {
+			fileDirs[1+f] = append(fileDirs[1+f], *t)
+		}
+	}
+	// the texts
+	text := func(ds []JDir) string {
+		var b strings.Builder
+		for _, d := range ds {
+			b.WriteString(d.Text())
+			b.WriteString("\n")
+		}
+		return b.String()
+	}
+	layout := r.Intn(4) // 0: siblings next to the root; 1: in a sub-directory; 2: mixed; 3: sibling f includes sibling f+1 (a chain)
+	sc.Layout = []string{"siblings next to the root", "siblings in a sub-directory", "some siblings in a sub-directory", "the root includes the first sibling, every sibling the next one"}[layout]
+	sc.Layout += "; " + []string{"opens in the root before the include lines", "opens in the root after the include lines", "opens at the top of the sibling files"}[openAt]
+	path := make([]string, sc.NFiles)
+	for f := range path {
+		path[f] = fmt.Sprintf("f%d.knut", f)
+		if layout == 1 || (layout == 2 && r.Bool()) {
+			path[f] = "sub/" + path[f]
+		}
+	}
+	var incs strings.Builder
+	for f := range path {
+		if layout == 3 && f > 0 {
+			break
+		}
+		fmt.Fprintf(&incs, "include \"%s\"\n\n", path[f])
+	}
+	rootText := text(fileDirs[0]) + incs.String()
+	if openAt == 1 {
+		rootText = incs.String() + text(fileDirs[0])
+	}
+	sc.Files = append(sc.Files, c02File{Path: "main.knut", Text: rootText})
+	sc.J = &Journal{}
+	sc.J.Dirs = append(sc.J.Dirs, fileDirs[0]...)
+	var flat strings.Builder
+	flat.WriteString(text(fileDirs[0]))
+	for f := range path {
+		t := text(fileDirs[1+f])
+		flat.WriteString(t)
+		if layout == 3 && f+1 < len(path) {
+			t += fmt.Sprintf("include \"%s\"\n", strings.TrimPrefix(path[f+1], "sub/"))
+		}
+		sc.Files = append(sc.Files, c02File{Path: path[f], Text: t})
+		sc.J.Dirs = append(sc.J.Dirs, fileDirs[1+f]...)
+	}
+	sc.Flat = flat.String()
+	// flags: the whole space, with a bounded number of period columns (the rows are many)
+	sc.F = GenBalFlags(r, sc.J, "", BalGenOpts{})
+	hi := base + 1
+	for _, d := range sc.J.Dirs {
+		hi = max(hi, d.Date)
+	}
+	if sc.F.Interval != 0 && (sc.F.To == 0 || sc.F.To > hi+40) {
+		sc.F.To = hi + r.Range(0, 40)
+	}
+	if sc.F.Interval != 0 && sc.F.Last == 0 && r.Chance(9, 10) {
+		sc.F.Last = r.Range(1, 6)
+	}
+	if r.Bool() { // half of the cases show every commodity and account
+		sc.F.Acc, sc.F.Com = nil, nil
+		var m []MapRuleF
+		for _, x := range sc.F.Map {
+			if x.Level != 0 {
+				m = append(m, x)
+			}
+		}
+		sc.F.Map = m
+	}
+	return sc
+}
+
+func runC02Shared(c *Ctx) {
+	const stream = "shared"
+	n := c.N(8, 60)
+	root := filepath.Join(c.WorkDir, "c02shared")
+	os.MkdirAll(root, 0o755)
+	var cases []*c02SharedCase
+	for i := 0; i < n; i++ {
+		if !c.Want(stream, i) {
+			continue
+		}
+		r := c.Rng(stream, i)
+		sc := c02GenSharedCase(r, i)
+		sc.Runs = append(sc.Runs, c02SharedRun{What: "single file"})
+		for k, reps := 0, r.Range(6, 12); k < reps; k++ {
+			sc.Runs = append(sc.Runs, c02SharedRun{What: "include tree", Procs: Pick(r, []int{0, 0, 0, 0, 2, 16})})
+		}
+		cases = append(cases, sc)
+	}
+	t0 := time.Now()
+	defer func() { c.Extra["shared_s"] = time.Since(t0).Seconds() }()
+	parallelFor(len(cases), 4, func(k int) {
+		sc := cases[k]
+		dir := filepath.Join(root, fmt.Sprintf("c%d", sc.Idx))
+		for _, f := range sc.Files {
+			p := filepath.Join(dir, filepath.FromSlash(f.Path))
+			os.MkdirAll(filepath.Dir(p), 0o755)
+			os.WriteFile(p, []byte(f.Text), 0o644)
+		}
+		os.WriteFile(filepath.Join(dir, "flat.knut"), []byte(sc.Flat), 0o644)
+		for q := range sc.Runs {
+			ru := &sc.Runs[q]
+			file := "main.knut"
+			if ru.What == "single file" {
+				file = "flat.knut"
+			}
+			var env []string
+			if ru.Procs > 0 {
+				env = []string{fmt.Sprintf("GOMAXPROCS=%d", ru.Procs)}
+			}
+			args := append([]string{"balance"}, sc.F.Args()...)
+			// (the zone of a run is a function of its arguments: the same for all loads of a case)
+			ru.Code, ru.Stdout, ru.Stderr = runKnut(c.KnutBin, 60*time.Second, env, append(args, filepath.Join(dir, file))...)
+		}
+		os.RemoveAll(dir)
+	})
+	c.Extra["shared_loads_s"] = time.Since(t0).Seconds()
+	bt := c.NewBatch()
+	defer bt.Flush()
+	for _, sc := range cases {
+		sc := sc
+		c.Evals++
+		first := c02SharedOutcome(&sc.Runs[1])
+		c.Class(fmt.Sprintf("c02shared/%s/%s/files%s/coms%s/accs%s", strings.Fields(first)[0], flagClass(sc.F), bucket(sc.NFiles), bucket(sc.NComs), bucket(sc.NAccs)))
+		c.Tag("shared-names:" + sc.Names)
+		if sc.Idx < 1 {
+			c.Sample(map[string]any{"stream": stream, "args": strings.Join(sc.F.Args(), " "), "sibling_files": sc.NFiles, "new_commodities": sc.NComs, "accounts": sc.NAccs,
+				"names": sc.Names, "order": sc.Order, "layout": sc.Layout, "loads": len(sc.Runs), "root": sc.Files[0].Text, "first_sibling": clip(sc.Files[1].Text), "stdout": clip(sc.Runs[1].Stdout)})
+		}
+		show := func(f *Finding, model string, ru *c02SharedRun) {
+			if f.Stream != stream || f.Index != sc.Idx { // (the finding was not stored: cap)
+				return
+			}
+			if strings.HasPrefix(model, "ok ") {
+				f.Model = clip(UnHex(strings.TrimPrefix(model, "ok ")))
+			}
+			f.Impl = clip(fmt.Sprintf("exit %d\n%s\n%s", ru.Code, ru.Stdout, ru.Stderr))
+		}
+		if c.Thorough() || sc.Idx%4 == 0 { // (the pipeline model on journals of this size costs as much as the specification)
+			bt.Add(func(model string) {
+				if model == "unsupported" {
+					c.Tag("model-unsupported")
+					return
+				}
+				if !c.Compare(stream, sc.Idx, "balance", sc.Input(&sc.Runs[1]), first, modelOutcomeCanon(model)) {
+					show(&c.Findings[len(c.Findings)-1], model, &sc.Runs[1])
+				}
+			}, "balance", sc.F.Wire(today()), sc.J.Wire())
+		}
+		bt.Add(func(spec string) {
+			if spec == "unsupported" {
+				return
+			}
+			want := modelOutcomeCanon(spec)
+			for q := range sc.Runs {
+				ru := &sc.Runs[q]
+				impl := c02SharedOutcome(ru)
+				ok := impl == want
+				detail := ""
+				if !ok {
+					detail = fmt.Sprintf("load %d of %d (%s", q, len(sc.Runs), ru.What)
+					if ru.Procs > 0 {
+						detail += fmt.Sprintf(", GOMAXPROCS=%d", ru.Procs)
+					}
+					detail += fmt.Sprintf("): exit %d", ru.Code)
+					if ru.Code == 0 && strings.HasPrefix(want, "ok ") {
+						detail += "; first difference to the ledger specification (real vs ledger): " + firstDiffLine(canonTable(ru.Stdout), UnHex(strings.TrimPrefix(want, "ok ")))
+					} else {
+						detail += " " + clip(ru.Stderr) + "; ledger specification: " + strings.Fields(want + " -")[0]
+					}
+				}
+				c.Monitor(stream, sc.Idx, "report_equals_ledger", sc.Input(ru), ok, detail)
+			}
+		}, "balance-spec", sc.F.Wire(today()), sc.J.Wire())
 	}
 }
